@@ -299,9 +299,11 @@ def run(ctx):
         if f is None:
             continue
         lf = f.logic()
-        cs = ctx.call_sites(lf.body, callee)
-        others = [o for c in cs for o in fn_origins(lf, c.args[argi], True) if o.startswith('call:' + EP + 'offset_to_') and o != 'call:' + off]
-        okk = bool(cs) and all(has(fn_origins(lf, c.args[argi], True), 'call:' + off) for c in cs) and not others
+        # wherever under the entry the store / opener is called (the look-up may sit in an awaited helper), the epoch argument traced up to the entry
+        cs = ctx.closure_sites(f, callee, depth=2)
+        ogs = [ctx.deep(f, g_, c_.args[argi], True, up=2, depth=2) for g_, c_ in cs]
+        others = [o for og_ in ogs for o in og_ if o.startswith('call:' + EP + 'offset_to_') and o != 'call:' + off]
+        okk = bool(cs) and all(has(og_, 'call:' + off) for og_ in ogs) and not others
         if okk:
             R.ok('e', 'R5', what, '', f.loc())
         else:
